@@ -228,9 +228,10 @@ pub fn any_repr(m: &'static Model) -> BoxedStrategy<Repr> {
 /// the fixed list of long lengths every length-dependent property visits (one case per length):
 /// around the powers of two where bulk / block / table fast paths typically switch on
 pub fn long_lens(thorough: bool, seed: u64) -> Vec<usize> {
-    let mut v = vec![1024usize, 1025, 2049, 4096, 4097, 4098, 8193, 16384, 16385, 16386];
+    // around powers of two, and the round decimal sizes people pick for blocks and buffers
+    let mut v = vec![1000usize, 1024, 1025, 2049, 4096, 4097, 4098, 8193, 10000, 16384, 16385, 16386, 20000];
     if thorough {
-        v.extend([1023, 2047, 2048, 4095, 8191, 8192, 16383, 20000, 32767, 32769, 65535, 65536, 65537, 70001, 131073, 262145]);
+        v.extend([1023, 2000, 2047, 2048, 4095, 5000, 8191, 8192, 16383, 30000, 32767, 32769, 50000, 65535, 65536, 65537, 70001, 100000, 131073, 200000, 262145]);
     }
     // a few lengths away from the powers of two, drawn from the run's seed through proptest
     use proptest::strategy::ValueTree;
